@@ -136,7 +136,8 @@ RECURSIVE SumPts(_)
 SumPts(ly) == IF ly = <<>> THEN 0 ELSE Head(ly).n + SumPts(Tail(ly))
 FileLen(c) == 16 + 12 * K(c) + 12 * SumPts(c.layout)
 \* the bytes on disk are the last synced state, and the file's length never changes after creation
-DiskOK(dur) == P("C05") /\ "disk" \in DOMAIN Ln => Full(cfg', Ln.disk) = dur /\ Ln.len = FileLen(cfg')
+DiskOK(dur) == P("C05") /\ "disk" \in DOMAIN Ln =>
+                 "disk_error" \notin DOMAIN Ln /\ Full(cfg', Ln.disk) = dur /\ Ln.len = FileLen(cfg')
 
 Sync ==
   /\ Is("sync")
